@@ -92,3 +92,15 @@ package mem
 //@   loop 1 invariant cap(ch) >= len(alerts) && count("Mutex).Unlock") == 0 && (forall k int :: a.listeners[k] == old(a.listeners[k]))
 //@   noeffect store.Alerts).List NewAlertIterator
 //@   assigns a.next, a.listeners[*]
+
+// ---- C03 / C14: only listeners whose subscriber has gone (done channel closed) are dropped; their channel is closed
+// exactly then; a live subscriber is never unsubscribed by the collector.
+//@ func (*Alerts).gcListeners
+//@   props C03 C14 C13
+//@   requires a != nil && a.listeners != nil
+//@   ensures [monitor-lock-released] count("Mutex).Lock") == 1 && count("Mutex).Unlock") == 1
+//@   at call chan.close assert [only-the-channel-of-a-finished-subscriber-is-closed] ret("select") == 0
+//@   ensures [nothing-new-appears] forall k int :: k in a.listeners ==> old(k in a.listeners) && a.listeners[k] == old(a.listeners[k])
+//@   ensures [dropped-exactly-the-finished-ones] count("chan.close") == old(len(a.listeners)) - len(a.listeners)
+//@   loop 1 invariant (forall k int :: k in a.listeners ==> old(k in a.listeners) && a.listeners[k] == old(a.listeners[k])) && count("chan.close") == old(len(a.listeners)) - len(a.listeners)
+//@   assigns a.listeners[*]
